@@ -154,7 +154,10 @@ def identify_missing_sections(existing_config: dict, all_sections: list[str]) ->
     Returns:
         List of section names missing from existing config
     """
-    return [s for s in all_sections if s not in existing_config]
+    # A section written with underscores (magic_numbers) is the same section: the config
+    # loader normalizes hyphens to underscores, so adding it again would override it
+    present = {str(key).replace("_", "-") for key in existing_config}
+    return [s for s in all_sections if s not in present]
 
 
 def _find_global_settings_position(content: str) -> int:
